@@ -287,7 +287,10 @@ def fault_expect(c):
     tell_kept = c["action"] in ("format", "str", "draw", "draw_anim", "n_frames")
     # explicit closing expected on the fault-free run, except for an iterator that is
     # closed / dropped before its first frame (its image is released by reference counting)
-    strict = not (c["action"] == "iter" and c.get("take", 0) == 0)
+    # ... and for the animated draw() of a file source, whose ImageIterator is constructed (opening the
+    # file a second time) and then re-pointed at draw()'s own image: that second image is also released
+    # by reference counting only (ResourceWarning "unclosed file"; the descriptor count is back at once)
+    strict = not (c["action"] == "iter" and c.get("take", 0) == 0) and not (c["action"] == "draw_anim" and c["source"] == "file")
     return tell_kept, strict
 
 
